@@ -19,10 +19,23 @@
      - the hits handed out by a scanner in any chunking are the core's hits (py_scanner_chunks);
      - invalid arguments give PyExc, never Panic (py_invalid_args_raise), and no history
        step panics unless the core panics (py_panic_only_from_core);
-     - the outcome classification used on the implementation is sound (check_C17_sound). *)
+     - the outcome classification used on the implementation is sound (check_C17_sound);
+   round 3:
+     - the Scanner read as lazy state over the live sequence object agrees, call by call, with the
+       hits fixed at its creation (py_scanner_lazy_eq_eager, under scan_stable);
+     - calls of two threads that share no written object give, in any interleaving, what each
+       thread gets alone (py_threads_independent; atomic calls);
+     - a file object whose read() fails later: load() / next() raise that exception, the other items
+       are the core reader's over the same stream (py_load_faulty_eq_core, py_faulty_read_exception_wins);
+     - no PanicException inside an iteration unless a core reader panics (py_items_no_panic);
+     - ==, copies, EncodedSequence, score_distribution, lazy loaders, generator arguments
+       (py_eq_is_core_eq, py_copy_independent, py_encode_eq_core, py_dist_eq_core, py_loader_lazy,
+       py_generator_args);
+     - which exception class is raised where, against the `new_err` sites of the source
+       (py_exception_sites_tied, py_exception_kinds). *)
 From Coq Require Import List ZArith Bool Lia.
 From LMBase Require Import ListX IEEE.
-From LMPyGlue Require Import PyGlueModel PyGlueProofs PyGlueHistory GenPySig.
+From LMPyGlue Require Import PyGlueModel PyGlueProofs PyGlueHistory PyGlueLazy PyGlueLazyProofs PyGlueThreads PyGlueItems GenPySig.
 Import ListNotations.
 Open Scope Z_scope.
 
@@ -93,7 +106,7 @@ Section Entries.
       c_count_new K a m = COk c /\
       Forall (fun r => length r = ksize a) m /\
       (forall s col items, In s (symbols a) -> dict_get kv s = Some col ->
-                           iter_items col = Some items -> length items = length m).
+                           col_items col = Some items -> length items = length m).
   Proof.
     intros values protein a c H. unfold glue_count_init in H.
     apply obind_inv_value in H. destruct H as [kv [Hkv H]].
@@ -115,7 +128,7 @@ Section Entries.
     glue_count_init K values protein = Value (OCount _ _ _ _ _ a c) ->
     exists kv m, values = PDict kv /\ c_count_new K a m = COk c /\
       forall j s r, nth_error (symbols a) j = Some s -> (r < length m)%nat ->
-                    cell_spec iter_items extract_u32 kv s r (nth j (nth r m []) 0).
+                    cell_spec col_items extract_u32 kv s r (nth j (nth r m []) 0).
   Proof.
     intros values protein a c H. unfold glue_count_init in H.
     apply obind_inv_value in H. destruct H as [kv [Hkv H]].
@@ -127,7 +140,7 @@ Section Entries.
     exists kv, m. repeat split; auto.
     - destruct (c_count_new K a m); simpl in Hc; try discriminate. congruence.
     - intros j s r Hj Hr.
-      destruct (cols_loop_cells a iter_items extract_u32 kv (symbols a) 0 None m eq_refl I Hd) as [HA _].
+      destruct (cols_loop_cells a col_items extract_u32 kv (symbols a) 0 None m eq_refl I Hd) as [HA _].
       exact (HA j s r Hj Hr).
   Qed.
 
@@ -378,6 +391,18 @@ Section Entries.
       cbn [map]. f_equal; [|apply IH; exact Hr].
       destruct v; try discriminate. unfold extract_str in Hs. destruct (existsb _ _); [discriminate|].
       inversion Hs; reflexivity.
+  Qed.
+
+  (* a generator object is as good as a list where the glue only iterates (create), and a TypeError
+     where it asks for len() first (a column of CountMatrix) *)
+  Theorem py_generator_args : forall l,
+    (forall protein name, glue_create K (PGen l) protein name = glue_create K (PList l) protein name) /\
+    (forall a ex j kv c rest d, dict_get kv c = Some (PGen l) ->
+       cols_loop a col_items ex (c :: rest) j kv d = PyExc TypeError) /\
+    (forall a ex j kv c rest d, dict_get kv c = Some (PGen l) ->
+       cols_loop a list_items ex (c :: rest) j kv d = PyExc TypeError).
+  Proof.
+    intros l. split; [reflexivity|]. split; intros a ex j kv c rest d H; cbn [cols_loop]; rewrite H; reflexivity.
   Qed.
 
   (* ---------------------------------------------------------------- loaders *)
@@ -719,6 +744,83 @@ Theorem py_history_depends_on_text_only :
     steps_rel CM WM SM SQ SC T text (run_history K st cs) (run_history K st' cs).
 Proof. intros. eapply run_history_rel; eauto. Qed.
 
+
+(* ------------------------------------------------------------------ the scanner over the live sequence *)
+
+(* The Python Scanner keeps references to the live matrix and sequence objects (lib.rs: transmute to
+   'static) and computes its hits block by block, on demand.  Read lazily - a scanner is only the
+   matrix, the parameters, the sequence *object* (seen through every later in-place reconfiguration by
+   calculate / scan / Scanner, also after the history dropped or rebound its name) and a count of hits
+   handed out; next() scans the sequence as it is now - every history gives, call by call, exactly what
+   the eager reading [run_history] prescribes (the hits of the core on the data as it was when the
+   scanner was made), provided further look-ahead rows never change a successful core scan.  The driver
+   runs both readings on every history and reports when they differ. *)
+Theorem py_scanner_lazy_eq_eager : forall CM FM WM SM SQ SC (K : core CM FM WM SM SQ SC),
+  scan_stable CM FM WM SM SQ SC K ->
+  forall cs, run_history_lazy K [] [] cs = run_history K [] cs.
+Proof. intros CM FM WM SM SQ SC K H cs. apply lazy_history; [exact H | apply linv_nil]. Qed.
+
+(* one step: same outcome, same objects, and the two readings stay in agreement *)
+Theorem py_scanner_lazy_step : forall CM FM WM SM SQ SC (K : core CM FM WM SM SQ SC),
+  scan_stable CM FM WM SM SQ SC K ->
+  forall st ls c, linv CM FM WM SM SQ SC K st ls ->
+    fst (fst (run_call_lazy K st ls c)) = fst (run_call K st c) /\
+    snd (fst (run_call_lazy K st ls c)) = snd (run_call K st c) /\
+    linv CM FM WM SM SQ SC K (snd (run_call K st c)) (snd (run_call_lazy K st ls c)).
+Proof. intros. apply lazy_step; assumption. Qed.
+
+
+(* ------------------------------------------------------------------ threads *)
+
+(* Two threads whose calls are interleaved in any order: when neither thread writes a name that the
+   other reads or writes - a scoring matrix both only read (calculate on their own sequences, pvalue,
+   score, max_score, ==) is fine - every call returns what it returns when its thread runs alone.
+   What the theorem assumes is that calls are atomic; the `mt` cases of the correspondence run check
+   that on the implementation (calculate / threshold / max / argmax release the GIL while they hold
+   their borrows): concurrent results equal the sequential ones, and sharing a *sequence* between
+   threads gives the sequential result or the documented RuntimeError (already borrowed). *)
+Theorem py_threads_independent : forall CM FM WM SM SQ SC (K : core CM FM WM SM SQ SC) st l,
+  separate (proj true l) (proj false l) ->
+  proj true (run_tagged K st l) = run_history K st (proj true l) /\
+  proj false (run_tagged K st l) = run_history K st (proj false l).
+Proof. intros. apply threads_independent. assumption. Qed.
+
+(* the three facts behind it, for one call *)
+Theorem py_call_local : forall CM FM WM SM SQ SC (K : core CM FM WM SM SQ SC) st st' c,
+  agree CM WM SM SQ SC (reads c) st st' ->
+  fst (run_call K st c) = fst (run_call K st' c) /\
+  (forall m, In m (PyGlueThreads.writes c) ->
+     lookup _ _ _ _ _ (snd (run_call K st c)) m = lookup _ _ _ _ _ (snd (run_call K st' c)) m) /\
+  (forall m, ~ In m (PyGlueThreads.writes c) -> lookup _ _ _ _ _ (snd (run_call K st c)) m = lookup _ _ _ _ _ st m).
+Proof.
+  intros CM FM WM SM SQ SC K st st' c H. split; [apply local_step; exact H|]. split.
+  - intros m Hm. apply local_writes; assumption.
+  - intros m Hm. apply local_frame; assumption.
+Qed.
+
+
+(* ------------------------------------------------------------------ no panic inside an iteration either *)
+
+(* py_panic_only_from_core is about the call itself; the motifs of a load come out of an iteration.
+   When the core readers do not panic (over well-behaved data: core_total; over misbehaving streams
+   and when driven lazily: readers_total) no next() of a loader raises a PanicException: neither the
+   end of list(load(..)), nor any item of an iteration that goes on after errors, nor any item handed
+   out by a lazy Loader *)
+Theorem py_items_no_panic : forall CM FM WM SM SQ SC (K : core CM FM WM SM SQ SC),
+  core_total _ _ _ _ _ _ K -> readers_total _ _ _ _ _ _ K ->
+  (forall file format protein r, glue_load K file format protein = Value r ->
+     match r with
+     | RLoad _ _ _ _ _ _ t => t <> Panic
+     | RLoadSeq _ _ _ _ _ items => ~ In Panic items
+     | _ => True
+     end) /\
+  (forall a id calls k, ~ In Panic (fst (lazy_take K a id calls k))).
+Proof.
+  intros CM FM WM SM SQ SC K CT RT. split.
+  - intros file format protein r H. exact (load_no_item_panic _ _ _ _ _ _ K CT RT file format protein r H).
+  - intros a id calls k. apply lazy_take_np; assumption.
+Qed.
+
 (* ------------------------------------------------------------------ tie to the source text *)
 
 (* GenPySig.v is regenerated from lib.rs / io.rs / abc.rs on every run (translate/pyglue_sig.py):
@@ -743,6 +845,96 @@ Theorem py_signatures_tied :
   gen_encoded_params = [[115; 101; 113; 117; 101; 110; 99; 101]; [112; 114; 111; 116; 101; 105; 110]] /\
   gen_encoded_keyword_only = false.
 Proof. repeat split; reflexivity. Qed.
+
+(* ------------------------------------------------------------------ which exception where *)
+
+Definition exc_name (e : exc) : list Z :=
+  match e with
+  | ValueError => [86; 97; 108; 117; 101; 69; 114; 114; 111; 114]
+  | TypeError => [84; 121; 112; 101; 69; 114; 114; 111; 114]
+  | OverflowError => [79; 118; 101; 114; 102; 108; 111; 119; 69; 114; 114; 111; 114]
+  | RuntimeError => [82; 117; 110; 116; 105; 109; 101; 69; 114; 114; 111; 114]
+  | OSError => [79; 83; 69; 114; 114; 111; 114]
+  | UnicodeError => [85; 110; 105; 99; 111; 100; 101; 69; 114; 114; 111; 114]
+  | AttributeError => [65; 116; 116; 114; 105; 98; 117; 116; 101; 69; 114; 114; 111; 114]
+  | NameError => [78; 97; 109; 101; 69; 114; 114; 111; 114]
+  | KeyError => [75; 101; 121; 69; 114; 114; 111; 114]
+  end.
+
+(* the messages of the `Py<Class>::new_err` sites whose exception class the model relies on (the site of a
+   message is found again in the generated table whatever moves around it) *)
+Definition model_exc_sites : list (list Z * exc) :=
+  [([97; 108; 112; 104; 97; 98; 101; 116; 32; 109; 105; 115; 109; 97; 116; 99; 104], ValueError) (* alphabet mismatch *);
+   ([112; 114; 111; 116; 101; 105; 110; 32; 115; 99; 97; 110; 110; 101; 114; 32; 105; 115; 32; 110; 111; 116; 32; 115; 117; 112; 112; 111; 114; 116; 101; 100], ValueError) (* protein scanner is not supported *);
+   ([98; 108; 111; 99; 107; 95; 115; 105; 122; 101; 32; 109; 117; 115; 116; 32; 98; 101; 32; 115; 116; 114; 105; 99; 116; 108; 121; 32; 112; 111; 115; 105; 116; 105; 118; 101], ValueError) (* block_size must be strictly positive *);
+   ([101; 109; 112; 116; 121; 32; 115; 99; 111; 114; 105; 110; 103; 32; 109; 97; 116; 114; 105; 120], ValueError) (* empty scoring matrix *);
+   ([115; 99; 111; 114; 105; 110; 103; 32; 109; 97; 116; 114; 105; 120; 32; 105; 115; 32; 101; 109; 112; 116; 121; 32; 111; 114; 32; 99; 111; 110; 116; 97; 105; 110; 115; 32; 78; 97; 78; 32; 111; 114; 32; 105; 110; 102; 105; 110; 105; 116; 101; 32; 115; 99; 111; 114; 101; 115], ValueError) (* scoring matrix is empty or contains NaN or infinite scores *);
+   ([116; 104; 101; 32; 116; 102; 109; 112; 118; 97; 108; 117; 101; 32; 109; 101; 116; 104; 111; 100; 32; 114; 101; 113; 117; 105; 114; 101; 115; 32; 97; 32; 110; 111; 110; 45; 101; 109; 112; 116; 121; 32; 109; 97; 116; 114; 105; 120; 32; 119; 105; 116; 104; 32; 102; 105; 110; 105; 116; 101; 32; 115; 99; 111; 114; 101; 115; 32; 40; 117; 115; 101; 32; 112; 115; 101; 117; 100; 111; 99; 111; 117; 110; 116; 115; 41], ValueError) (* the tfmpvalue method requires a non-empty matrix with finite scores (use pseudocounts) *);
+   ([99; 97; 110; 110; 111; 116; 32; 99; 111; 109; 112; 108; 101; 109; 101; 110; 116; 32; 97; 32; 112; 114; 111; 116; 101; 105; 110; 32; 115; 101; 113; 117; 101; 110; 99; 101], RuntimeError) (* cannot complement a protein sequence *);
+   ([105; 110; 118; 97; 108; 105; 100; 32; 112; 118; 97; 108; 117; 101; 32; 109; 101; 116; 104; 111; 100], ValueError) (* invalid pvalue method *);
+   ([105; 110; 118; 97; 108; 105; 100; 32; 115; 99; 111; 114; 101], ValueError) (* invalid score *);
+   ([105; 110; 118; 97; 108; 105; 100; 32; 112; 45; 118; 97; 108; 117; 101], ValueError) (* invalid p-value *);
+   ([105; 110; 118; 97; 108; 105; 100; 32; 108; 111; 103; 97; 114; 105; 116; 104; 109; 32; 98; 97; 115; 101], ValueError) (* invalid logarithm base *);
+   ([73; 110; 118; 97; 108; 105; 100; 32; 98; 97; 99; 107; 103; 114; 111; 117; 110; 100; 32; 102; 114; 101; 113; 117; 101; 110; 99; 105; 101; 115], ValueError) (* Invalid background frequencies *);
+   ([73; 110; 118; 97; 108; 105; 100; 32; 116; 121; 112; 101; 32; 102; 111; 114; 32; 112; 115; 101; 117; 100; 111; 99; 111; 117; 110; 116], TypeError) (* Invalid type for pseudocount *);
+   ([73; 110; 118; 97; 108; 105; 100; 32; 107; 101; 121; 32; 102; 111; 114; 32; 112; 115; 101; 117; 100; 111; 99; 111; 117; 110; 116], ValueError) (* Invalid key for pseudocount *);
+   ([73; 110; 118; 97; 108; 105; 100; 32; 110; 117; 109; 98; 101; 114; 32; 111; 102; 32; 114; 111; 119; 115], ValueError) (* Invalid number of rows *);
+   ([73; 110; 118; 97; 108; 105; 100; 32; 99; 111; 117; 110; 116; 32; 109; 97; 116; 114; 105; 120], ValueError) (* Invalid count matrix *);
+   ([73; 110; 99; 111; 110; 115; 105; 115; 116; 101; 110; 116; 32; 114; 111; 119; 115; 32; 105; 110; 32; 99; 111; 117; 110; 116; 32; 109; 97; 116; 114; 105; 120], ValueError) (* Inconsistent rows in count matrix *);
+   ([73; 110; 118; 97; 108; 105; 100; 32; 115; 121; 109; 98; 111; 108; 32; 105; 110; 32; 105; 110; 112; 117; 116], ValueError) (* Invalid symbol in input *);
+   ([73; 110; 118; 97; 108; 105; 100; 32; 115; 121; 109; 98; 111; 108; 32; 105; 110; 32; 115; 101; 113; 117; 101; 110; 99; 101], ValueError) (* Invalid symbol in sequence *);
+   ([73; 110; 99; 111; 110; 115; 105; 115; 116; 101; 110; 116; 32; 115; 101; 113; 117; 101; 110; 99; 101; 32; 108; 101; 110; 103; 116; 104], ValueError) (* Inconsistent sequence length *);
+   ([105; 110; 118; 97; 108; 105; 100; 32; 100; 97; 116; 97], ValueError) (* invalid data *);
+   ([102; 97; 105; 108; 101; 100; 32; 116; 111; 32; 112; 97; 114; 115; 101; 32; 105; 110; 112; 117; 116], ValueError) (* failed to parse input *);
+   ([105; 110; 118; 97; 108; 105; 100; 32; 99; 111; 117; 110; 116; 32; 109; 97; 116; 114; 105; 120], ValueError) (* invalid count matrix *);
+   ([99; 97; 110; 110; 111; 116; 32; 114; 101; 97; 100; 32; 112; 114; 111; 116; 101; 105; 110; 32; 109; 111; 116; 105; 102; 115; 32; 102; 114; 111; 109; 32; 74; 65; 83; 80; 65; 82; 32; 102; 111; 114; 109; 97; 116], ValueError) (* cannot read protein motifs from JASPAR format *);
+   ([105; 110; 118; 97; 108; 105; 100; 32; 102; 111; 114; 109; 97; 116], ValueError) (* invalid format *);
+   ([101; 120; 112; 101; 99; 116; 101; 100; 32; 98; 121; 116; 101; 115; 44; 32; 102; 111; 117; 110; 100], TypeError) (* expected bytes, found *);
+   ([102; 104; 46; 114; 101; 97; 100; 32; 114; 101; 116; 117; 114; 110; 101; 100; 32; 109; 111; 114; 101; 32; 98; 121; 116; 101; 115; 32; 116; 104; 97; 110; 32; 114; 101; 113; 117; 101; 115; 116; 101; 100], OSError) (* fh.read returned more bytes than requested *)].
+
+(* a message names at least one site of the source, and every site with that message raises the class the
+   model says *)
+Definition site_ok (sites : list (list Z * list Z)) (me : list Z * exc) : bool :=
+  let hits := filter (fun s => zlist_eqb (fst s) (fst me)) sites in
+  negb (match hits with [] => true | _ => false end) &&
+  forallb (fun s => zlist_eqb (snd s) (exc_name (snd me))) hits.
+
+Theorem py_exception_sites_tied : forallb (site_ok gen_exc_sites) model_exc_sites = true.
+Proof. vm_compute. reflexivity. Qed.
+
+(* ... and these are the kinds the model raises at those places *)
+Theorem py_exception_kinds : forall CM FM WM SM SQ SC (K : core CM FM WM SM SQ SC),
+  (forall s, glue_revcomp K Protein s = PyExc RuntimeError) /\
+  (forall s q, sm_empty (c_sm_cells K s) = false ->
+     fst (glue_calculate K Dna s Protein q) = PyExc ValueError /\ fst (glue_calculate K Protein s Dna q) = PyExc ValueError) /\
+  (forall s aq q, sm_empty (c_sm_cells K s) = true -> fst (glue_calculate K aq s aq q) = PyExc ValueError) /\
+  (forall s q t b, ordered_ok false (c_sm_cells K s) = true ->
+     fst (glue_scan K Protein s Protein q t b) = PyExc ValueError /\
+     fst (glue_scan K Dna s Protein q t b) = PyExc ValueError /\ fst (glue_scan K Protein s Dna q t b) = PyExc ValueError) /\
+  (forall thr t, match thr with None => Value 0 | Some v => extract_f32 v end = Value t ->
+     glue_scan_args thr (Some (PInt 0)) = PyExc ValueError) /\
+  fault_exc FNotBytes = TypeError /\ fault_exc FTooMany = OSError /\
+  convert_error EInvalidData = ValueError /\ convert_error ENom = ValueError /\ convert_error EIo = OSError /\
+  (forall format protein, glue_load K FileNotBytes format protein = PyExc TypeError \/
+     exists e, glue_load K FileNotBytes format protein = PyExc e /\
+               (format_arg format = PyExc e \/ exists f, format_arg format = Value f /\ protein_flag protein = PyExc e)).
+Proof.
+  intros CM FM WM SM SQ SC K. repeat split.
+  - unfold glue_calculate. rewrite H. reflexivity.
+  - unfold glue_calculate. rewrite H. reflexivity.
+  - intros s aq q H. unfold glue_calculate. rewrite H. reflexivity.
+  - unfold glue_scan. rewrite H. reflexivity.
+  - unfold glue_scan. rewrite H. reflexivity.
+  - unfold glue_scan. rewrite H. reflexivity.
+  - intros thr t H. unfold glue_scan_args. rewrite H. reflexivity.
+  - intros format protein. unfold glue_load. destruct (format_arg format) as [f|e|] eqn:Ef; cbn [obind].
+    + destruct (protein_flag protein) as [a|e|] eqn:Ea; cbn [obind].
+      * left. reflexivity.
+      * right. exists e. split; [reflexivity|]. right. exists f. split; reflexivity.
+      * exfalso. eapply protein_flag_np. exact Ea.
+    + right. exists e. split; [reflexivity|]. left. reflexivity.
+    + exfalso. destruct format as [v|]; [|discriminate]. cbn in Ef. eapply extract_str_np. exact Ef.
+Qed.
 
 (* first-match semantics of the `match format { "jaspar" if protein => ..., ... }` of Loader.__init__
    over the arms as they stand in io.rs *)
@@ -962,3 +1154,108 @@ Example ex_history_wrap_irrelevant :
   run_history toy [(0%nat, OSeq _ _ _ _ _ Dna ([65; 67; 71; 84], 40))] h
   = run_history toy [(0%nat, OSeq _ _ _ _ _ Dna ([65; 67; 71; 84], 0))] h.
 Proof. vm_compute. split; reflexivity. Qed.
+
+(* the toy core satisfies the hypothesis of py_scanner_lazy_eq_eager ... *)
+Example ex_toy_scan_stable : scan_stable _ _ _ _ _ _ toy.
+Proof.
+  intros s q t b h s' q' Hs Hc. cbn in *. inversion Hc; subst q'; clear Hc. cbn [snd].
+  destruct (s - 1 <=? snd q) eqn:E; [|discriminate]. apply Z.leb_le in E.
+  assert (E' : (s - 1 <=? Z.max (snd q) (s' - 1)) = true) by (apply Z.leb_le; lia).
+  rewrite E'. exact Hs.
+Qed.
+
+(* ... and the lazy reading really looks at the live object: with a core whose scan reports the
+   number of look-ahead rows, a scanner made before the sequence is reconfigured by a wider motif
+   hands out what the sequence looks like at the time of next(), the eager reading what it looked
+   like when the scanner was made; after the name of the sequence is rebound the scanner still sees
+   the old object *)
+Definition toy_wrap : core Z Z Z Z (list Z * Z) Z := {|
+  c_count_new := c_count_new toy; c_encode_ok := c_encode_ok toy; c_from_seqs := c_from_seqs toy;
+  c_to_freq := c_to_freq toy; c_to_weight := c_to_weight toy; c_bg_uniform := c_bg_uniform toy;
+  c_bg_new := c_bg_new toy; c_w_bg := c_w_bg toy; c_rescale := c_rescale toy;
+  c_to_scoring_base := c_to_scoring_base toy; c_scoring_new := c_scoring_new toy; c_revcomp := c_revcomp toy;
+  c_max_score := c_max_score toy; c_sm_cells := c_sm_cells toy; c_cm_eq := Z.eqb; c_wm_eq := Z.eqb; c_sm_eq := Z.eqb;
+  c_dist_sf := c_dist_sf toy; c_stripe := c_stripe toy; c_configure := c_configure toy; c_score := c_score toy;
+  c_threshold := c_threshold toy; c_max := c_max toy; c_argmax := c_argmax toy;
+  c_dist_pvalue := c_dist_pvalue toy; c_dist_score := c_dist_score toy; c_tfm_pvalue := c_tfm_pvalue toy;
+  c_tfm_score := c_tfm_score toy;
+  c_scan := fun s q t b => COk [(snd q, s); (7, s)];
+  c_read := c_read toy; c_read_faulty := c_read_faulty toy; c_lazy_next := c_lazy_next toy
+|}.
+
+Example ex_lazy_sees_live_object :
+  let sm w := KScoringInit w (PDict [(PStr [65], PList (repeat (PFloat f64_half) w))]) None None in
+  let h := [KStripe 0 (PStr [65; 67; 71; 84; 65; 67; 71; 84]) None; sm 2%nat; sm 5%nat;
+            KScan 3 (PRef 2) (PRef 0) None None; KNext 3 (Some 1%nat);
+            KCalculate 4 5 (PRef 0);                           (* reconfigures the sequence under the scanner *)
+            KStripe 0 (PStr [65]) None;                        (* the name now means another object *)
+            KNext 3 None] in
+  nth 7 (run_history toy_wrap [] h) (Unbound _ _ _ _ _) = Done _ _ _ _ _ (Value (RHits _ _ _ _ _ [(7, 2)] true)) /\
+  nth 7 (run_history_lazy toy_wrap [] [] h) (Unbound _ _ _ _ _) = Done _ _ _ _ _ (Value (RHits _ _ _ _ _ [(7, 2)] true)) /\
+  nth 4 (run_history_lazy toy_wrap [] [] h) (Unbound _ _ _ _ _) = Done _ _ _ _ _ (Value (RHits _ _ _ _ _ [(1, 2)] false)) /\
+  (* a scanner that has handed out nothing yet shows the difference *)
+  let h2 := [KStripe 0 (PStr [65; 67; 71; 84; 65; 67; 71; 84]) None; sm 2%nat; sm 5%nat;
+             KScan 3 (PRef 2) (PRef 0) None None; KCalculate 4 5 (PRef 0); KDelete 0; KNext 3 None] in
+  nth 6 (run_history toy_wrap [] h2) (Unbound _ _ _ _ _) = Done _ _ _ _ _ (Value (RHits _ _ _ _ _ [(1, 2); (7, 2)] true)) /\
+  nth 6 (run_history_lazy toy_wrap [] [] h2) (Unbound _ _ _ _ _) = Done _ _ _ _ _ (Value (RHits _ _ _ _ _ [(4, 2); (7, 2)] true)) /\
+  run_history_lazy toy [] [] h2 = run_history toy [] h2.
+Proof. vm_compute. repeat split; reflexivity. Qed.
+
+(* two threads share the scoring matrix 1 and work on their own sequences: separate, and the
+   interleaved run gives each thread what it gets alone; sharing the sequence is not separate *)
+Example ex_threads :
+  let sm := KScoringInit 1 (PDict [(PStr [65], PList [PFloat f64_half; PFloat f64_half])]) None None in
+  let t (q sc : nat) := [KStripe q (PStr [65; 67; 71; 84; 65]) None; KCalculate sc 1 (PRef q); KMax sc;
+                         KPvalue 1 (PFloat f64_half) None] in
+  let l := [(true, KStripe 2 (PStr [65; 67; 71; 84; 65]) None); (false, KStripe 4 (PStr [65; 67; 71; 84; 65]) None);
+            (false, KCalculate 5 1 (PRef 4)); (true, KCalculate 3 1 (PRef 2)); (true, KMax 3);
+            (false, KMax 5); (false, KPvalue 1 (PFloat f64_half) None); (true, KPvalue 1 (PFloat f64_half) None)] in
+  proj true l = t 2%nat 3%nat /\ proj false l = t 4%nat 5%nat /\
+  separate (t 2%nat 3%nat) (t 4%nat 5%nat) /\
+  ~ separate [KCalculate 3 1 (PRef 2)] [KCalculate 5 1 (PRef 2)] /\
+  proj true (run_tagged toy (snd (run_call toy [] sm)) l) =
+    [Done _ _ _ _ _ (Value (RObj _ _ _ _ _ (OSeq _ _ _ _ _ Dna ([65; 67; 71; 84; 65], 0))));
+     Done _ _ _ _ _ (Value (RObj _ _ _ _ _ (OScores _ _ _ _ _ 4)));
+     Done _ _ _ _ _ (Value (RMaxv _ _ _ _ _ (Some 4)));
+     Done _ _ _ _ _ (Value (RF64 _ _ _ _ _ 1))].
+Proof.
+  cbn zeta. split; [reflexivity|]. split; [reflexivity|]. split.
+  - split; intros m Hm Hf; cbn in Hm, Hf; intuition congruence.
+  - split.
+    + intros [H _]. apply (H 2%nat); cbn; auto.
+    + vm_compute. reflexivity.
+Qed.
+
+(* the hypotheses of py_items_no_panic are satisfiable *)
+Example ex_toy_readers_total : readers_total _ _ _ _ _ _ toy.
+Proof.
+  split.
+  - intros d f a it b H. cbn in H. destruct H as [H|[H|[]]]; inversion H; discriminate.
+  - intros id j. discriminate.
+Qed.
+
+(* ... and so is core_total (a core that never panics) *)
+Definition toy_total : core Z Z Z Z (list Z * Z) Z := {|
+  c_count_new := c_count_new toy; c_encode_ok := c_encode_ok toy; c_from_seqs := c_from_seqs toy;
+  c_to_freq := c_to_freq toy; c_to_weight := c_to_weight toy; c_bg_uniform := c_bg_uniform toy;
+  c_bg_new := c_bg_new toy; c_w_bg := c_w_bg toy; c_rescale := c_rescale toy;
+  c_to_scoring_base := c_to_scoring_base toy; c_scoring_new := c_scoring_new toy; c_revcomp := c_revcomp toy;
+  c_max_score := c_max_score toy; c_sm_cells := c_sm_cells toy; c_cm_eq := Z.eqb; c_wm_eq := Z.eqb; c_sm_eq := Z.eqb;
+  c_dist_sf := c_dist_sf toy; c_stripe := c_stripe toy; c_configure := c_configure toy;
+  c_score := fun s q => COk (Z.of_nat (length (fst q)));
+  c_threshold := c_threshold toy; c_max := c_max toy; c_argmax := c_argmax toy;
+  c_dist_pvalue := c_dist_pvalue toy; c_dist_score := c_dist_score toy; c_tfm_pvalue := c_tfm_pvalue toy;
+  c_tfm_score := c_tfm_score toy;
+  c_scan := fun s q t b => COk [(0, s)];
+  c_read := c_read toy; c_read_faulty := c_read_faulty toy; c_lazy_next := c_lazy_next toy
+|}.
+
+Example ex_core_total : core_total _ _ _ _ _ _ toy_total /\ readers_total _ _ _ _ _ _ toy_total.
+Proof.
+  split.
+  - constructor; cbn; try (intros; discriminate); try (intros; eexists; reflexivity); try (intros ? ? ? []).
+    intros a s. destruct (existsb _ s); discriminate.
+  - split.
+    + intros d f a it b H. cbn in H. destruct H as [H|[H|[]]]; inversion H; discriminate.
+    + intros id j. discriminate.
+Qed.
